@@ -45,6 +45,9 @@ int aln_param_init(struct aln_param **aln_param,int biotype , int n_threads, int
                 case KALIGN_TYPE_PROTEIN:
                         ERROR_MSG("Detected DNA sequences but --type protein option was selected.");
                         break;
+                case KALIGN_TYPE_PROTEIN_DIVERGENT:
+                        ERROR_MSG("Detected DNA sequences but --type divergent option was selected.");
+                        break;
                 default:
                         set_subm_gaps_RNA(ap);
                         break;
